@@ -16,6 +16,8 @@ pub fn worker_main(args: &[String]) -> i32 {
         "c10" => workers::worker_entry(args, crate::props::c10::worker),
         "c11-stdfs" => workers::worker_entry(args, crate::props::c11::stdfs_worker),
         "c12" => workers::worker_entry(args, crate::props::c12::worker),
+        "c13" => workers::worker_entry(args, crate::props::c13::worker),
+        "c20" => workers::worker_entry(args, crate::props::c20::worker),
         "c17" => workers::worker_entry(args, crate::props::c17::worker),
         "c18" => workers::worker_entry(args, crate::props::c18::worker),
         _ => {
